@@ -16,7 +16,9 @@ Next ==
   /\ l <= Len(Rec)
   /\ LET r == Rec[l]   e == Filtered(Vec(r)) IN
      PrintT(<<"VERDICT", ToJson([id |-> r.id,
-        bad |-> (IF r.received = e THEN {} ELSE {"received-features-differ"})])>>)
+        bad |-> (IF r.received = e THEN {} ELSE {"received-features-differ"})
+                \cup (IF Range(r.started) = Accepted(Vec(r)) /\ Len(r.started) = Cardinality(Accepted(Vec(r)))
+                      THEN {} ELSE {"started-scenarios-differ-with-hooks-added-after-the-cli-options"})])>>)
   /\ l' = l + 1
 Spec == Init /\ [][Next]_l
 AllChecked ==
